@@ -18,6 +18,7 @@ import Rooc.Proofs.Compose
 import Rooc.Proofs.ComposeExamples
 import Rooc.Proofs.ComposeE2EExamples
 import Rooc.Proofs.LinDExamples2
+import Rooc.Proofs.ComposeWF
 namespace Rooc.Props.C03
 open Rooc Rooc.Sem Rooc.Ref Rooc.Exp
 
@@ -650,8 +651,9 @@ tableau loop → mapped-back point
 For the built-in simplex at exact arithmetic the solver contract is not an assumption: `Rooc.Props.C05.
 slow_simplex_linOptimal_exact` / `slow_simplex_linUnbounded_exact` (C13 ∘ C14 through the by-name/positional adapter
 `Rooc/Proofs/ComposeSem.lean`) prove it.  Composed with the theorems above this gives an end-to-end statement about
-the SOURCE model.  Hypotheses on the compiled model `lm` (all decidable on the computed `lm`; their discharge from
-C08's well-formedness theorems for continuous sources is planned): `StdSem.WF lm`, distinct names, `DomVars`, `NNOK`;
+the SOURCE model.  First with explicit hypotheses on the compiled model `lm` (`StdSem.WF lm`, distinct names, `DomVars`,
+`NNOK` — all decidable on the computed `lm`), then (`…_src_partial`) with these discharged from C08 and from the success
+of `to_standard_form`;
 and the interface `CanonicalFor T (stdK s)` (provided by `slow_simplex_direct_start_partial` for the direct start). -/
 section EndToEnd
 open Tableau TabSem StdSem StdMain Standardize ComposeSimplex ComposeSem
@@ -703,6 +705,74 @@ theorem c03_slow_simplex_infeasible_end_to_end_partial {m : Model (Ext K)} {t : 
     ∀ ρ : String → K, srcFeasible m ρ = false :=
   (c03_compile_infeasible_partial ht h hm hok ht1).mp
     (simplex_linInfeasible hW hnn hdv hs stallExtra limit prefer hp1 hneg)
+
+/-! #### the same with the hypotheses on the compiled model DISCHARGED (`Rooc/Proofs/ComposeWF.lean`)
+
+Sizes, finiteness, distinct variable names and "variables = domain keys" of `lm` come from C08's theorems
+(`vars_nodup`, `vars_eq_domain_keys`, `row_lengths`, `objective_length`, `finite_out_partial`; `FiniteLits m` follows from
+the contract); non-strict rows, a continuous domain and a direction come from the SUCCESS of `to_standard_form` on `lm`,
+which the path needs anyway.  What remains about `lm` is `ComposeWF.DomainFormat lm` — the bound format of the published
+continuous ranges (`Real(lo, hi)`: `lo ∈ {−inf} ∪ finite`, `hi ∈ {+inf} ∪ finite`; `NonNegativeReal`: `0 ≤ lo` finite) —
+for which C07/C08 have no theorem yet (see the header of `ComposeWF.lean`); it is decidable on the computed model. -/
+
+/-- **source optimum from the built-in simplex, hypotheses on the source** (plus the run itself and `DomainFormat`). -/
+theorem c03_slow_simplex_end_to_end_src_partial {m : Model (Ext K)} {t : K} (ht : 0 ≤ t) {maxSteps : Nat}
+    {lm : LinModel (Ext K)} (h : Compile.linearize m (.fin t) maxSteps = .ok lm)
+    (hm : LogicModel m m.domain) (hsh : AssertShape m) (hok : DeclOK m.domain)
+    (ht1 : t < 1 ∨ NoIntegerVars m.domain)
+    {s : StdModel (Ext K)} (hs : standardize lm = .ok s) (hfmt : ComposeWF.DomainFormat lm)
+    {T : Tab K} (hT : CanonicalFor T (stdK s)) (stallExtra limit : Nat) (prefer : List Nat)
+    (hfin : (solve (0:K) stallExtra limit prefer T).result = .ok ()) :
+    srcFeasible m (pointOf lm.vars (preimage lm (basicSolution (solve (0:K) stallExtra limit prefer T).final))) = true ∧
+    eval (pointOf lm.vars (preimage lm (basicSolution (solve (0:K) stallExtra limit prefer T).final))) m.objective =
+      some (optimalValue (solve (0:K) stallExtra limit prefer T).final) ∧
+    ∀ ρ : String → K, srcFeasible m ρ = true → ∀ u, eval ρ m.objective = some u →
+      better m.optType u (optimalValue (solve (0:K) stallExtra limit prefer T).final) = false := by
+  obtain ⟨hW, hnn, hdv, hnd⟩ := ComposeWF.compiled_wf h hok.nodup (ComposeWF.finiteLits_of_logicModel hm) hs hfmt
+  obtain ⟨ho, hv⟩ := simplex_linOptimal hW hnn hdv hnd hs hT stallExtra limit prefer hfin
+  obtain ⟨hs', he, _, hbest⟩ := c03_compile_optimal_logic_partial ht h hm hsh hok ht1 ho
+  rw [hv] at he
+  exact ⟨hs', he, fun ρ hρ u hu => hbest ρ hρ u _ hu he⟩
+
+/-- **source unboundedness from the built-in simplex, hypotheses on the source.** -/
+theorem c03_slow_simplex_unbounded_end_to_end_src_partial {m : Model (Ext K)} {t : K} (ht : 0 ≤ t) {maxSteps : Nat}
+    {lm : LinModel (Ext K)} (h : Compile.linearize m (.fin t) maxSteps = .ok lm)
+    (hm : LogicModel m m.domain) (hsh : AssertShape m) (hok : DeclOK m.domain)
+    (ht1 : t < 1 ∨ NoIntegerVars m.domain)
+    {s : StdModel (Ext K)} (hs : standardize lm = .ok s) (hfmt : ComposeWF.DomainFormat lm)
+    {T : Tab K} (hT : CanonicalFor T (stdK s)) (stallExtra limit : Nat) (prefer : List Nat)
+    (hunb : (solve (0:K) stallExtra limit prefer T).result = .error .unbounded) : SrcUnbounded m := by
+  obtain ⟨hW, hnn, hdv, hnd⟩ := ComposeWF.compiled_wf h hok.nodup (ComposeWF.finiteLits_of_logicModel hm) hs hfmt
+  exact (c03_compile_unbounded_logic_partial ht h hm hsh hok ht1).mp
+    (simplex_linUnbounded hW hnn hdv hnd hs hT stallExtra limit prefer hunb)
+
+/-- **source infeasibility from the built-in simplex, hypotheses on the source.** -/
+theorem c03_slow_simplex_infeasible_end_to_end_src_partial {m : Model (Ext K)} {t : K} (ht : 0 ≤ t) {maxSteps : Nat}
+    {lm : LinModel (Ext K)} (h : Compile.linearize m (.fin t) maxSteps = .ok lm)
+    (hm : LogicModel m m.domain) (hsh : AssertShape m) (hok : DeclOK m.domain)
+    (ht1 : t < 1 ∨ NoIntegerVars m.domain)
+    {s : StdModel (Ext K)} (hs : standardize lm = .ok s) (hfmt : ComposeWF.DomainFormat lm)
+    (stallExtra limit : Nat) (prefer : List Nat)
+    (hp1 : (solve (0:K) stallExtra limit prefer (phase1Tab (stdK s))).result = .ok ())
+    (hneg : (solve (0:K) stallExtra limit prefer (phase1Tab (stdK s))).final.value < 0) :
+    ∀ ρ : String → K, srcFeasible m ρ = false := by
+  obtain ⟨hW, hnn, hdv, _⟩ := ComposeWF.compiled_wf h hok.nodup (ComposeWF.finiteLits_of_logicModel hm) hs hfmt
+  exact (c03_compile_infeasible_logic_partial ht h hm hsh hok ht1).mp
+    (simplex_linInfeasible hW hnn hdv hs stallExtra limit prefer hp1 hneg)
+
+/-- the `_src_` form applies to `exSrc` as well: `DomainFormat exMax` is a one-line check. -/
+example (t : ℚ) (ht : 0 ≤ t) :
+    srcFeasible exSrc (pointOf ["x"] [2]) = true ∧ eval (pointOf ["x"] [2]) exSrc.objective = some 2 := by
+  have hfmt : ComposeWF.DomainFormat exMax := by
+    refine ⟨?_, ?_, exMax_nnok⟩ <;> intro d hd lo hi hty <;>
+      simp only [exMax, List.mem_singleton] at hd <;> subst hd <;> simp at hty
+    obtain ⟨rfl, rfl⟩ := hty
+    simp [StdSem.isFin]
+  have h := c03_slow_simplex_end_to_end_src_partial ht (exSrc_compile (.fin t)) (LogicModel.ofFragModel exSrc_frag)
+    (assertShape_of_fragModel exSrc_frag) exSrc_declOK (Or.inr exSrc_noInt) exMax_std hfmt
+    exTM_canonicalFor 1 10 [] exTM_solve.1
+  rw [exTM_solve.2, exTM'_preimage, exTM'_value] at h
+  exact ⟨h.1, h.2.1⟩
 
 /-- non-vacuity (`K = ℚ`, every tolerance `t ≥ 0`, step limit 0): `max x s.t. c: x ≤ 2`, `x` NonNegativeReal.  Every
 hypothesis of `c03_slow_simplex_end_to_end_partial` holds JOINTLY — the pipeline returns `exMax`, its standard form is
